@@ -13,3 +13,11 @@ package addoffsetstotxn
 //@ wire Response
 //@   layout v0..v2 ThrottleTimeMs int32, ErrorCode int16
 //@   layout v3 _ struct{} @-1, ThrottleTimeMs int32, ErrorCode int16
+
+//@ property C12
+// Routing (C12): which of the protocol message interfaces the request satisfies decides where the Transport sends it
+// (connPool.sendRequest tests BrokerMessage, then GroupMessage, then TransactionalMessage).
+//@ wire Request
+//@   implements protocol.TransactionalMessage
+//@   notimplements protocol.GroupMessage
+//@   notimplements protocol.BrokerMessage
